@@ -18,6 +18,7 @@ for sid in ids:
         print(f"{sid}: DOES NOT APPLY to {head}"); meta["applies_to"] = None
         json.dump(meta, open(f"{d}/meta.json","w"), indent=1); continue
     det = []
+    inc = []
     sh(f"git -C /repo apply {d}/patch.diff")
     try:
         for chk in RELATED.get(prop, [prop]):
@@ -34,10 +35,13 @@ for sid in ids:
             sh(f"rm -f /verif/replays/{chk}-*.json")
             if rc == 1 and viol:
                 det.append({"check": chk, "tier": "quick", "first_message": msg})
+            elif rc == 2:
+                inc.append(chk)
     finally:
         sh("git -C /repo checkout -- .")
     meta["applies_to"] = head
     meta["detected_by"] = det
+    if inc: meta["inconclusive_in"] = inc
     json.dump(meta, open(f"{d}/meta.json","w"), indent=1)
 sh("git -C /repo checkout -- .")
 sh("cd /verif && ./vcheck --setup")
